@@ -1,3 +1,4 @@
+import Fpdec.Kernels.WideFits
 import Fpdec.Kernels.Round
 import Fpdec.Lemmas.Rounding
 import Fpdec.Lemmas.IntTy
@@ -252,5 +253,14 @@ theorem kernel_round_quot (prof : Profile) (tm : Mode) (quot : Int) (rem divisor
     (hq : fitsI128 quot = true) :
     Gen.K.round_quot prof tm quot rem divisor mode = .ok (roundQuot tm quot rem divisor mode) :=
   Kernels.round_quot_eq prof tm quot rem divisor mode hq
+
+theorem kernel_ten_pow (prof : Profile) (n : Nat) : Gen.K.ten_pow prof n = tenPow n := Kernels.ten_pow_eq prof n
+theorem kernel_mul_pow_ten (prof : Profile) (val : Int) (n : Nat) : Gen.K.mul_pow_ten prof val n = mulPowTen val n :=
+  Kernels.mul_pow_ten_eq prof val n
+theorem kernel_checked_mul_pow_ten (prof : Profile) (val : Int) (n : Nat) :
+    Gen.K.checked_mul_pow_ten prof val n = .ok (checkedMulPowTen val n) := Kernels.checked_mul_pow_ten_eq prof val n
+theorem kernel_i128_div_rounded (prof : Profile) (tm : Mode) (a b : Int) (mode : Option Mode) (ha : fitsI128 a = true) :
+    Gen.K.i128_div_rounded prof tm a b mode = i128DivRounded prof tm a b mode :=
+  Kernels.i128_div_rounded_eq prof tm a b mode ha
 
 end Fpdec.Props.C05
